@@ -239,6 +239,20 @@ class Stats:
         self.models_used = set()
 
 
+_STD = None
+
+
+def _std_models():
+    global _STD
+    if _STD is None:
+        try:
+            import stdmodels
+            _STD = stdmodels.MODELS
+        except Exception:
+            _STD = []
+    return _STD
+
+
 class Engine:
     def __init__(self, mirs, registry, models=None, inline=None, hints=None, eager=True, loop_bound=8,
                  max_paths=200000, max_steps=200000):
@@ -428,9 +442,16 @@ class Engine:
         root = (frame.uid, local)
         path = []
         pending_variant = None
+        slice_off = 0          # a `Slice[ref, lo(, hi)]` view was dereferenced: the next index is relative to lo
+        slice_len = None
         for step in proj:
             if step[0] == "deref":
                 v = self.read_at(st, root, path)
+                while isinstance(v, Adt) and v.ty == "Slice":
+                    slice_off += v.fields[1] if len(v.fields) > 1 else 0
+                    if len(v.fields) > 2 and slice_len is None:
+                        slice_len = v.fields[2] - (v.fields[1] if len(v.fields) > 1 else 0)
+                    v = v.fields[0]
                 if isinstance(v, Ref):
                     root, path = v.root, list(v.path)
                 elif isinstance(v, BoxV):
@@ -454,7 +475,9 @@ class Engine:
                 iv = z3.simplify(iv)
                 if not z3.is_bv_value(iv):
                     raise Unsupported("symbolic index %r" % (iv,))
-                path.append(("index_c", iv.as_long()))
+                path.append(("index_c", iv.as_long() + slice_off))
+                slice_off = 0
+                slice_len = None
             else:
                 path.append(step)
         return root, path
@@ -820,6 +843,13 @@ class Engine:
             return z3.BitVec(v.name + "#len", USIZE)
         if isinstance(v, StrV):
             return z3.BitVecVal(len(v.s.encode()), USIZE)
+        if isinstance(v, Adt) and v.ty == "Slice":
+            base = v.fields[0]
+            lo = v.fields[1] if len(v.fields) > 1 else 0
+            n = self.len_of(st, base)
+            if len(v.fields) > 2:
+                return z3.BitVecVal(v.fields[2] - lo, USIZE)
+            return z3.simplify(n - z3.BitVecVal(lo, USIZE))
         raise Unsupported("len of %r" % (v,))
 
     def _read_const(self, ref):
@@ -1121,6 +1151,12 @@ class Engine:
         for rx, handler in BUILTIN_MODELS:
             if re.search(rx, callee):
                 self.stats.models_used.add("builtin:" + rx)
+                out = handler(self, st, fr, callee, args, ops)
+                return self.finish_call(st, fr, dest, ret_bb, out, work, callee)
+        # 4. the wider std vocabulary (lib/stdmodels.py, validated against the real std by tools/test_models.py): a fallback only
+        for rx, handler in _std_models():
+            if re.search(rx, callee):
+                self.stats.models_used.add("std:" + rx)
                 out = handler(self, st, fr, callee, args, ops)
                 return self.finish_call(st, fr, dest, ret_bb, out, work, callee)
         raise Unsupported("call to %r has neither model nor inline rule (in %s)" % (callee, fr.fn.name))
